@@ -84,10 +84,14 @@ fn main() {
     let mut prop = "C01".to_string();
     let mut threads = 1usize;
     let mut ncases_override: Option<usize> = None;
+    let mut alt_threads = 4usize;
     let mut i = 0;
     while i < o.extra.len() {
         if o.extra[i] == "--prop" {
             prop = o.extra[i + 1].clone();
+            i += 1;
+        } else if o.extra[i] == "--alt-threads" {
+            alt_threads = o.extra[i + 1].parse().expect("alt-threads");
             i += 1;
         } else if o.extra[i] == "--cases" {
             ncases_override = Some(o.extra[i + 1].parse::<usize>().expect("cases"));
@@ -104,6 +108,7 @@ fn main() {
         "C04" => Bias::C04,
         "C05" => Bias::C05,
         "C13" => Bias::C13,
+        "C06" => Bias::C03,
         _ => Bias::C01,
     };
     let header = "From Coq Require Import List ZArith NArith.\nImport ListNotations.\nRequire Import Verif.Base.Cases Verif.Egg.Model Verif.Egg.Rules.\n";
@@ -165,9 +170,17 @@ fn main() {
             e.seminaive = false;
             let _ = step(&mut e, &p.header());
             Some(e)
+        } else if prop == "C06" {
+            // C06: the main engine runs single-threaded, the second one with `alt_threads`
+            // threads (the parallel cut-offs come from the environment of this process)
+            let mut e = egglog::EGraph::default().with_num_threads(alt_threads);
+            let _ = step(&mut e, &p.header());
+            Some(e)
         } else {
             None
         };
+        let alt_name = if prop == "C06" { format!("{alt_threads} threads") } else { "naive".to_string() };
+        let alt_key = if prop == "C06" { "C06-threads-differ" } else { "C03-semi-vs-naive" };
         let (r0, _) = step(&mut eg, &p.header());
         if let Err(e) = r0 {
             viols.push(Viol { what: format!("harness: header rejected: {e}"), key: "harness-header".into(), program: text.clone(), at: 0 });
@@ -280,12 +293,12 @@ fn main() {
                     Ok(obn) => {
                         viols.push(Viol {
                             what: format!(
-                                "after command {k} `{}`: semi-naive and naive evaluation differ: semi-naive {} sizes {:?} classes {:?}; naive {} sizes {:?} classes {:?}",
+                                "after command {k} `{}`: the reference engine and the {alt_name} engine differ: reference {} sizes {:?} subs {:?} ints {:?} classes {:?}; {alt_name} {} sizes {:?} subs {:?} ints {:?} classes {:?}",
                                 ctext.replace('\n', " "),
-                                if ok { "ok" } else { "failed" }, ob.sizes, ob.classes,
-                                if rn.is_ok() { "ok" } else { "failed" }, obn.sizes, obn.classes
+                                if ok { "ok" } else { "failed" }, ob.sizes, ob.subs, ob.ints, ob.classes,
+                                if rn.is_ok() { "ok" } else { "failed" }, obn.sizes, obn.subs, obn.ints, obn.classes
                             ),
-                            key: "C03-semi-vs-naive".into(),
+                            key: alt_key.into(),
                             program: text.clone(),
                             at: k,
                         });
@@ -503,6 +516,43 @@ fn main() {
             }
             if viols.last().map(|v| v.program == text).unwrap_or(false) {
                 break;
+            }
+        }
+        if let Some(en) = eg_naive.as_mut() {
+            if !viols.last().map(|v| v.program == text).unwrap_or(false) {
+                if let Ok(d) = dump(&eg, p) {
+                    let ix = d.index();
+                    let mut n = 0;
+                    for pr in probes.iter() {
+                        if n >= 3 {
+                            break;
+                        }
+                        if Dump::eval(&ix, pr).is_none() {
+                            continue;
+                        }
+                        n += 1;
+                        let cmd = format!("(extract {})", p.pat_text(pr));
+                        let cost = |r: &Result<Vec<egglog::CommandOutput>, String>| -> Option<String> {
+                            match r {
+                                Ok(outs) => outs.iter().find_map(|o| match o {
+                                    egglog::CommandOutput::ExtractBest(_, c, _) => Some(format!("{c}")),
+                                    _ => None,
+                                }),
+                                Err(e) => Some(format!("error:{}", classify_error(e))),
+                            }
+                        };
+                        let (ra, _) = step(&mut eg, &cmd);
+                        let (rb, _) = step(en, &cmd);
+                        if cost(&ra) != cost(&rb) {
+                            viols.push(Viol {
+                                what: format!("extraction cost of {} differs: reference {:?}, {alt_name} {:?}", p.pat_text(pr), cost(&ra), cost(&rb)),
+                                key: alt_key.into(),
+                                program: text.clone(),
+                                at: p.cmds.len(),
+                            });
+                        }
+                    }
+                }
             }
         }
         let nt = match bias {
